@@ -23,12 +23,59 @@ def envelope_body(data):
     return env, body
 
 
+ABSENT = 0.5     # probability that an optional container of a nested object is left out as a whole
+
+
+def pick_prefixes(rng, n):
+    """The prefixes the WSDL binds to the schema namespaces: suds copies them into the request (header
+    elements, xsi:type values), where they meet the ns<k> prefixes its own normaliser generates."""
+    r = rng.random()
+    if r < 0.35:
+        return ["t%d" % i for i in range(n)]
+    if r < 0.55:
+        return ["ns%d" % i for i in range(n)]
+    if r < 0.8:
+        ks = list(range(n + 2))
+        rng.shuffle(ks)
+        return ["ns%d" % k for k in ks[:n]]
+    return rng.sample(["ns0", "ns1", "ns2", "ns10", "tns", "xs", "q", "SOAP-ENC", "m"], n)
+
+
 def gen_args(rng, S, t):
     """(kwargs as abstract values, values in parameter order incl. None)"""
-    obj = F.gen_object(rng, S, t, depth=0, typed=False)
+    obj = F.gen_object(rng, S, t, depth=0, typed=False, absent_groups=ABSENT)
     given = dict((k, v) for k, v in obj.fields if not k.startswith("_"))
     params = [p for p, _ in S.flat(t) if isinstance(p, F.Elem)]
     return given, [given.get(p.name) for p in params]
+
+
+def absent_features(S, decl_t, v, acc, depth):
+    """marks values in which a member of an optional container of a NESTED object, not itself
+    minOccurs=0, is None / an empty list"""
+    if isinstance(v, list):
+        for x in v:
+            absent_features(S, decl_t, x, acc, depth)
+        return
+    if not isinstance(v, F.VObj):
+        return
+    t = S.type(*v.ty) if v.ty else decl_t
+    if t is None:
+        return
+    decl = dict((p.name, (p, anc)) for p, anc in S.flat(t) if isinstance(p, F.Elem))
+    for k, x in v.fields:
+        if k.startswith("_"):
+            if k[1:] in F.MARKUP_ATTR_NAMES:
+                acc.add("attribute-named-like-markup")
+                if v.ty and S.type(*v.ty) is not decl_t:
+                    acc.add("attribute-named-like-markup-on-derived-value")
+            continue
+        if k not in decl:
+            continue
+        p, anc = decl[k]
+        if depth >= 1 and anc and not p.opt and (x is None or x == []):
+            acc.add("none-under-optional-container-%s" % ("typed" if v.ty else "dict"))
+        if p.tref[0] == "n":
+            absent_features(S, S.type(p.tref[1], p.tref[2]), x, acc, depth + 1)
 
 
 def features(v, acc):
@@ -82,7 +129,10 @@ def run(ck):
             return False, repr(e)
 
     for si in range(n_schemas):
-        S = F.gen_schema(rng)
+        if si % 5 < 2:      # denser in nested objects with optional containers
+            S = F.gen_schema(rng, markup_attr_names=True, p_nested=0.45, p_cont_opt=0.6, p_named=0.45)
+        else:
+            S = F.gen_schema(rng, markup_attr_names=True)
         ops = [F.Op("op%d" % k, "wrapped", in_type=(t.ns, t.name)) for k, t in enumerate(S.types)]
         tb = rng.choice(S.types)
         tr = rng.choice(S.types)
@@ -90,7 +140,10 @@ def run(ck):
         ops.append(F.Op("bare0", "bare", parts=[("g1", ("n", tb.ns, tb.name)), ("g2", ("b", b1))]))
         body_ns = rng.randrange(len(S.namespaces))
         ops.append(F.Op("rpc0", "rpc", parts=[("x", ("n", tr.ns, tr.name)), ("y", ("b", b2))], body_ns=body_ns))
-        wsdl = F.render_ops(S, ops)
+        Rr = F.Renderer(S, pick_prefixes(rng, len(S.namespaces)))
+        Rr.groups = rng.random() < 0.35          # nested containers as <xsd:group ref=.. [minOccurs="0"]/>
+        Rr.local_tns = rng.random() < 0.2
+        wsdl = F.render_ops(S, ops, Rr)
         try:
             client = U.client_from_wsdl(wsdl, nosend=True)
         except Exception as e:  # noqa
@@ -127,6 +180,7 @@ def run(ck):
                           (wsdl, "op%d" % k, given, xstq, raw)))
                 for v in args:
                     features(v, feats)
+                absent_features(S, None, F.VObj((t.ns, t.name), list(given.items())), feats, 0)
                 ck.seen(("w", si, k, rep), nontrivial=any(isinstance(v, (F.VObj, list)) for v in args))
                 ck.count("wrapped-" + ci.split(" ")[0].strip("("))
         # ---- bare & rpc
@@ -136,7 +190,7 @@ def run(ck):
             xstq = rng.random() < 0.8
             client.set_options(xstq=xstq)
             e1 = F.Elem("g1", 0, True, ("n", tb.ns, tb.name))
-            v1 = F.gen_value(rng, S, e1, depth=1)
+            v1 = F.gen_value(rng, S, e1, depth=1, absent_groups=ABSENT)
             v2 = ("leaf",) + F.gen_leaf(rng, b1)
             try:
                 pargs = (F.to_python(client, S, v1), F.to_python(client, S, v2))
@@ -151,13 +205,14 @@ def run(ck):
                                                  clist([P.value(v1), P.value(v2)], "value"), ci),
                       (wsdl, "bare0", (v1, v2), xstq, raw)))
             features(v1, feats)
+            absent_features(S, tb, v1, feats, 1)
             ck.seen(("b", si, rep))
             ck.count("bare-" + ci.split(" ")[0].strip("("))
             # rpc
             I = F.new_interner()
             P = F.CoqPrinter(S, I)
             ex = F.Elem("x", 0, False, ("n", tr.ns, tr.name), opt=True)
-            vx = F.gen_value(rng, S, ex, depth=1)
+            vx = F.gen_value(rng, S, ex, depth=1, absent_groups=ABSENT)
             vy = None if rng.random() < 0.2 else ("leaf",) + F.gen_leaf(rng, b2)
             try:
                 pargs = (F.to_python(client, S, vx), F.to_python(client, S, vy))
@@ -179,6 +234,7 @@ def run(ck):
                                                        clist([P.value(vx), P.value(vy)], "value"), ci),
                       (wsdl, "rpc0", (vx, vy), xstq, raw)))
             features(vx, feats)
+            absent_features(S, tr, vx, feats, 1)
             ck.seen(("r", si, rep))
             ck.count("rpc-" + ci.split(" ")[0].strip("("))
         for f in feats:
